@@ -63,7 +63,9 @@ def make_replay(rep, ob, concrete=None):
     rp = ob.meta.get('replayer')
     if ob.answer == 'sat' and rp is not None:
         try:
+            _t0 = time.time()
             confirmed = guarded(rp, ob)
+            data['replay_seconds'] = round(time.time() - _t0, 1)
         except Exception as e:
             data['replay_error'] = repr(e)
     if confirmed and confirmed.get('violates'):
